@@ -210,6 +210,9 @@ def concretize(case, rnd, n, harness_exe, thorough, session=None):
                    "x-ms-azure-host-authorization": "Azure-HMAC-SHA256 %s deadbeef" % GUID}[h]
             headers.insert(rnd.randint(1, len(headers)), [rand_case(rnd, h), val])
             spoof[h] += 1
+    if rnd.random() < 0.1:
+        # a Connection header that nominates proxy-owned names as hop-by-hop must not make the proxy drop its stamps
+        headers.insert(rnd.randint(1, len(headers)), ["Connection", "keep-alive, %s, %s" % (rand_case(rnd, OWNED[0]), OWNED[1])])
     # environment
     dest = own["dest"] if own["has"] else "none"
     mode = case["rules"].get(dest, "none") if dest in ("ws", "ga", "imds") else "none"
@@ -241,6 +244,8 @@ def concretize(case, rnd, n, harness_exe, thorough, session=None):
                     "body": {"text": "host-" + rid}}}
     if host_fault == "reset":
         req["resp"]["framing"] = "reset"
+    if session and len(session) > 2 and session[2] == "close-after" and case["forwarded"]:
+        req["resp"]["framing"] = "cl-close"     # the host answers (keep-alive style) and then closes its side of the upstream
     if framing == "chunked":
         req["chunks"] = [rnd.randint(1, max(1, blen // 3 + 1)) for _ in range(rnd.randint(0, 3))] if blen < (1 << 20) else [1 << 20] * 200
     if declared is not None:
@@ -258,6 +263,8 @@ def concretize(case, rnd, n, harness_exe, thorough, session=None):
         "prov": target == "/provision", "exempt": exempt, "bodyLen": body_len_seen, "sentLen": blen, "framing": framing,
         "spoof": spoof, "hostStatus": host_status, "skip": skip, "headers": headers, "attr": attr,
         "session": bool(session), "hostFault": host_fault,
+        "upstreamClosed": bool(session and len(session) > 2 and session[2] == "closed"),
+        "port_of": None,
     }
     return steps, meta
 
@@ -343,7 +350,7 @@ def observe(events, metas):
                "url": url_to_tla(m["target"]), "fault": m["fault"], "keyPresent": m["keyPresent"], "trav": m["trav"],
                "prov": m["prov"], "exempt": m["exempt"], "bodyLen": m["bodyLen"], "framing": m["framing"],
                "status": status, "relayed": relayed, "strayBytes": stray, "hostStatus": m["hostStatus"],
-               "hostFault": m.get("hostFault", "none")}
+               "hostFault": m.get("hostFault", "none"), "upstreamClosed": bool(m.get("upstreamClosed"))}
         if relayed:
             h = hr[0]
             cz = census(h["headers"])
@@ -380,6 +387,8 @@ def observe(events, metas):
         cs = m["case"]
         exp_status = cs["status"] if cs["status"] != 299 else m["hostStatus"]
         mism = []
+        if m.get("upstreamClosed"):
+            cs = dict(cs, forwarded=relayed, status=status if cs["forwarded"] else cs["status"])
         if relayed != cs["forwarded"]:
             mism.append("forwarded spec=%s impl=%s" % (cs["forwarded"], relayed))
         if status != exp_status and m.get("hostFault", "none") == "none":
@@ -445,13 +454,22 @@ def pipeline(c):
         name = "proxy_b%d_%d" % (bi, os.getpid())
         exe = os.path.join(util.BUILD, "run", name, "verif-agent")
         steps, metas = [], []
+        prev_conn = None
         for i, cs in b:
             st, m = concretize(cs, rnd, i, exe, thorough)
             if m["skip"]:
                 metas.append(m)
                 continue
+            if not cs["own"]["has"] and prev_conn and rnd.random() < 0.5:
+                # a direct connection that reuses the source port of an earlier (closed) attributed connection
+                for x in st:
+                    if x.get("op") == "connect":
+                        x["port_of"] = prev_conn
+                        m["port_of"] = prev_conn
             steps += st
             metas.append(m)
+            if cs["own"]["has"]:
+                prev_conn = m["conn"]
         jobs.append([bi, steps, metas, name])
     # keep-alive sessions: several scenarios with the same attribution on ONE connection (the environment may
     # change between the requests); a shape that leaves an unread body on the wire goes last
@@ -480,8 +498,12 @@ def pipeline(c):
             dip, dport = rig.DEST[own["dest"]]
             attr = {"uid": uid, "admin": 1 if own["elevated"] else 0, "dip": dip, "dport": dport}
         ssteps, smetas, first = [], [], True
+        upstream = "open"
         for j, k in enumerate(seq):
-            st, m = concretize(k, rnd, base + si * 10 + j, exe, thorough, session=(conn, uid))
+            mark = "closed" if upstream == "closed" else ("close-after" if (j < len(seq) - 1 and k["forwarded"] and rnd.random() < 0.2) else "open")
+            st, m = concretize(k, rnd, base + si * 10 + j, exe, thorough, session=(conn, uid, mark))
+            if mark == "close-after" and not m["skip"]:
+                upstream = "closed"
             if m["skip"]:
                 continue
             if first:
@@ -546,12 +568,13 @@ def replay_steps(c, prop, steps, meta):
 
 
 MC_CONFIGS = [("MC_Proxy", "Proxy_one.cfg"), ("MC_Proxy", "Proxy_two.cfg"), ("MC_Proxy", "Proxy_key.cfg")]
+MC_CONFIGS_DEEP = [("MC_Proxy", "Proxy_one_deep.cfg"), ("MC_Proxy", "Proxy_two_deep.cfg")]   # thorough: 4M + 0.9M states
 REQUIRED = ["ClientConnect", "AcceptLookup", "AcceptRemove", "StartRequest", "Eval", "GetRules", "Authorize", "Collect",
             "Send", "SetRules", "SetKey"]
 
 
 def model_check(c, configs=None):
-    for mod, cfg in configs or MC_CONFIGS:
+    for mod, cfg in (configs or MC_CONFIGS) + (MC_CONFIGS_DEEP if c.tier == "thorough" and configs is None else []):
         res = c.tlc(mod, cfg, workers=6, timeout=900, required_actions=REQUIRED if cfg == "Proxy_one.cfg" else None)
         if res.violated:
             raise tlcmod.TlcError("design-level violation in %s: %s\n%s" % (cfg, res.invariant_violated or res.property_violated,
